@@ -227,7 +227,9 @@ def check_compile(ctx, ci):
                 # the guard that led here
                 for g, pol in p.guards:
                     t = canon(g if pol else negate(g))
-                    if 'position' in t and 'isinstance(' in t and ((e.name == 'iam_first' and 'fields[(position + -1)]' in t) or (e.name == 'iam_last' and 'fields[(position + 1)]' in t)):
+                    back = 'fields[(position + -' in t
+                    fwd = 'fields[(position + ' in t and not back
+                    if 'position' in t and 'isinstance(' in t and ((e.name == 'iam_first' and back) or (e.name == 'iam_last' and fwd)):
                         (firsts if e.name == 'iam_first' else lasts).add(t)
     wf = '((position == 0) or not isinstance(fields[(position + -1)][1], Bits))'
     wl = '((len(fields) + -1*position + -1 == 0) or not isinstance(fields[(position + 1)][1], Bits))'
@@ -237,11 +239,12 @@ def check_compile(ctx, ci):
         elif not got:
             stored = any(e.kind == 'store_attr' and canon(e.obj) == 'self' and e.name == name for p in paths for e in p.effects)
             if stored:
-                ctx.violation(rule, comp, name, 'the %s membership test was not found in its expected form (position at the edge or the neighbour is not a Bits)' % name, comp.node.lineno, clause='a')
+                # stored under a test the rule does not read (a class attribute instead of isinstance, a helper): no verdict
+                ctx.undecided(rule, comp, name, 'the %s membership test is not in a form the rule reads (position at the edge or the neighbour is not a Bits)' % name, comp.node.lineno, clause='a')
             else:
                 ctx.undecided(rule, comp, name, 'Bits._compile does not store %s: the membership of the run is kept in another form' % name, comp.node.lineno, clause='a')
         else:
-            ctx.violation(rule, comp, '%s iff %s' % (name, sorted(got)), 'expected %s' % want, comp.node.lineno, clause='a')
+            ctx.violation(rule, comp, '%s iff %s' % (name, sorted(got)), 'expected %s' % want, comp.node.lineno, clause='a', witness=True)
     # ---- the walk over the run
     walk = find_run_walk(ctx, comp, paths, rule)
     if walk is None:
@@ -542,6 +545,8 @@ def check_init(ctx, ci):
                 ctx.holds(rule, fi, 'first member: shared slot := 0', 'pack merges into a defined value', z[0].lineno, clause='f')
             elif not z and own_init:
                 ctx.holds(rule, fi, 'first member: self.I.init(packet, {})', 'the shared Int initialises its own slot with its default, 0 (Int() is built with defaults: C05 / C19 constructor rule)', own_init[0].lineno, clause='f')
+            elif not z and any(e.kind == 'call' and isinstance(e.call.func, ast.Attribute) and canon(e.call.func.value) == 'self.I' for e in p.effects):
+                ctx.undecided(rule, fi, 'first member: %s' % [e.text()[:60] for e in p.effects if e.kind == 'call'][:2], 'the shared Int is asked to initialise its slot through a method the rule does not follow', fi.node.lineno, clause='f')
             else:
                 ctx.violation(rule, fi, 'first member: %s' % [e.text() for e in z], 'the shared slot must be zeroed by the first member', fi.node.lineno, clause='f')
     if not seen_first:
